@@ -17,13 +17,13 @@ PROPS = {
         "level": "proof",
         "trusted_base": ["vk.ground exact GF(2) rank / span kernel (closed obligations on matrices the real constructors produced)", "lemma L-rank (rank-nullity): rowspace(G) in ker H, rank G = k, rank H = n-k => ker H = rowspace(G)"],
         "assumptions": [],
-        "out_of_reach": ["bodies of compute_null_space_matrix / row_reduction (torch.linalg.svd, data-dependent nonzero): verified only through the object invariant of every constructed code (ground), not symbolically"],
+        "out_of_reach": ["bodies of compute_null_space_matrix / row_reduction / get_generator_matrix (data-dependent elimination on concrete matrices): covered by closed obligations - exhaustively for ALL binary matrices with k*n <= 12 (thorough 16) and through the invariant of every constructed code - not symbolically"],
     },
     "C04": {
         "level": "proof",
         "trusted_base": ["vk.ground exact GF(2) matrix product (closed obligation G.R = I on the matrices the real constructors produced)"],
         "assumptions": [],
-        "out_of_reach": ["body of compute_right_pseudo_inverse (data-dependent elimination loops on concrete matrices): covered as a ground obligation per constructed code plus through the symbolic client obligation inverse_encode(forward(m)) == m"],
+        "out_of_reach": ["body of compute_right_pseudo_inverse (data-dependent elimination loops on concrete matrices): closed obligations - exhaustively for ALL full-rank binary matrices with k*n <= 12 (thorough 16), per constructed code, and through the symbolic client obligation inverse_encode(forward(m)) == m"],
     },
     "C03": {
         "level": "proof",
